@@ -873,7 +873,18 @@ func (c *compiler) evalCallExpression(node *ast.CallExpression) (interface{}, er
 		}
 
 		if ff, ok := f.(*userFunction); ok {
-			return c.evalUserFunction(ff, node.Arguments)
+			res, err := c.evalUserFunction(ff, node.Arguments)
+			if err != nil || node.ChainCallee == nil {
+				return res, err
+			}
+
+			// f().rest: the rest of the path hangs off the result, as for a Go function
+			if id := chainRoot(node); id != nil {
+				defer c.bind(id, res)()
+				return c.evalExpression(node.ChainCallee)
+			}
+
+			return res, nil
 		}
 
 		rv = reflect.ValueOf(f)
